@@ -2,121 +2,39 @@ package main
 
 import (
 	"fmt"
-	"math/big"
 	"os"
-	"strconv"
 
 	"github.com/MinterTeam/minter-go-node/coreV2/types"
 	"verif/harness/h"
 )
-
-func comps(e *types.AppState) map[string]*big.Int {
-	m := map[string]*big.Int{}
-	add := func(k string, s string) {
-		if m[k] == nil {
-			m[k] = new(big.Int)
-		}
-		m[k].Add(m[k], h.BI(s))
-	}
-	for _, a := range e.Accounts {
-		for _, b := range a.Balance {
-			if b.Coin == 0 {
-				add("bal", b.Value)
-			}
-		}
-	}
-	for _, c := range e.Candidates {
-		for _, s := range c.Stakes {
-			if s.Coin == 0 {
-				add("stake", s.Value)
-			}
-		}
-		for _, s := range c.Updates {
-			if s.Coin == 0 {
-				add("upd", s.Value)
-			}
-		}
-	}
-	for _, x := range e.Waitlist {
-		if x.Coin == 0 {
-			add("wl", x.Value)
-		}
-	}
-	for _, x := range e.FrozenFunds {
-		if x.Coin == 0 {
-			add("ff", x.Value)
-		}
-	}
-	for _, p := range e.Pools {
-		if p.Coin0 == 0 {
-			add("pool", p.Reserve0)
-		}
-		for _, o := range p.Orders {
-			if !o.IsSale && p.Coin0 == 0 {
-				add("ord", o.Volume0)
-			}
-		}
-	}
-	for _, c := range e.Coins {
-		if c.Crr > 0 {
-			add("res", c.Reserve)
-		}
-	}
-	for _, v := range e.Validators {
-		add("accum", v.AccumReward)
-	}
-	add("slashed", e.TotalSlashed)
-	return m
-}
 
 func main() {
 	hist, err := h.LoadHistory(os.Args[1])
 	if err != nil {
 		panic(err)
 	}
-	target, _ := strconv.ParseInt(os.Args[2], 10, 64)
 	types.CurrentChainID = types.ChainID(hist.ChainID)
 	gen := hist.GenesisOf()
 	w := &h.World{ValOwner: map[types.Pubkey]*h.Key{}, ValCtl: map[types.Pubkey]*h.Key{}, InitialHeight: hist.InitialHeight}
 	s := h.NewSim("dbg", 1, 0, gen, w, h.NodeOpts{StakePeriod: hist.StakePeriod, ExpirePeriod: hist.ExpirePeriod, KeepLastStates: hist.KeepLast}, h.Rng(1, "x", 0))
+	s.DiskEvery = 1
 	for i := range hist.Blocks {
 		req, metas := hist.Blocks[i].Req()
 		res := s.RunBlock(req, metas, nil)
-		if req.Height == target-1 && os.Getenv("VALS") != "" {
-			for _, v := range s.Post.Validators {
-				fmt.Println("VAL", v.PubKey.String()[:10], v.TotalBipStake, v.AccumReward)
-			}
-			for _, c := range s.Post.Candidates {
-				fmt.Println("CAND", c.PubKey.String()[:10], "st", c.Status, "total", c.TotalBipStake, "stakes", len(c.Stakes), "upd", len(c.Updates))
-				for _, st := range c.Stakes {
-					fmt.Println("     stake", st.Owner.String()[:8], st.Coin, st.Value, st.BipValue)
-				}
-			}
+		if res == nil || s.PostDisk == nil {
+			break
 		}
-		if req.Height == target && res == nil {
-			fmt.Println("dead at target", s.Viol)
-		}
-		if req.Height == target && res != nil {
-			a, b := comps(s.Pre), comps(s.Post)
-			for k := range b {
-				if a[k] == nil {
-					a[k] = new(big.Int)
-				}
-				fmt.Println(k, new(big.Int).Sub(b[k], a[k]))
+		if d := h.DiffExports(s.Post, s.PostDisk, 5); len(d) > 0 {
+			fmt.Println("height", req.Height, "live!=disk", d)
+			for i, dd := range res.Deliver {
+				fmt.Printf("   tx %d type %02x code %d\n", i, metas[i].Type, dd.Code)
 			}
-			de, derr := s.N.DiskExport()
-			fmt.Println("frozen live", len(s.Post.FrozenFunds), "disk", len(de.FrozenFunds), derr, "lastver", s.N.LastVersion())
-			for hh := uint64(target); hh < uint64(target)+600; hh++ {
-				if ff := s.N.App.CurrentState().FrozenFunds().GetFrozenFunds(hh); ff != nil {
-					fmt.Println("frozen at", hh, len(ff.List))
-				}
+			fmt.Println("   valupd", len(res.End.ValidatorUpdates), "live n", len(s.Post.Validators), "disk n", len(s.PostDisk.Validators), "lastver", s.N.LastVersion())
+			for _, v := range s.N.App.CurrentState().Validators().GetValidators() {
+				fmt.Println("   live val", v.PubKey.String()[:10], v.IsToDrop(), v.GetTotalBipStake())
 			}
-			fmt.Println("unbond period", types.GetUnbondPeriod())
-			for i, d := range res.Deliver {
-				fmt.Printf("tx %d type %02x code %d %s\n   tags %v\n", i, metas[i].Type, d.Code, d.Log, h.Tags(&d))
-			}
-			for _, l := range h.DiffExports(s.Pre, s.Post, 60, "/validators") {
-				fmt.Println("  ", l)
+			for _, v := range s.PostDisk.Validators {
+				fmt.Println("   disk val", v.PubKey.String()[:10], v.TotalBipStake)
 			}
 			break
 		}
